@@ -445,12 +445,16 @@ func main() {
 	if gs, err := os.ReadFile(filepath.Join(*repo, "go.sum")); err == nil {
 		os.WriteFile(filepath.Join(*out, "repo", "go.sum"), gs, 0o644)
 	}
-	if *inject != "" {
-		filepath.Walk(*inject, func(path string, info os.FileInfo, err error) error {
+	for _, injectDir := range strings.Split(*inject, ",") {
+		if injectDir == "" {
+			continue
+		}
+		injectDir := injectDir
+		filepath.Walk(injectDir, func(path string, info os.FileInfo, err error) error {
 			if err != nil || info.IsDir() || !strings.HasSuffix(path, ".go") {
 				return nil
 			}
-			rel, _ := filepath.Rel(*inject, filepath.Dir(path))
+			rel, _ := filepath.Rel(injectDir, filepath.Dir(path))
 			dstDir := filepath.Join(*out, "repo", rel)
 			if _, err := os.Stat(dstDir); err != nil {
 				return nil // package not part of the rewritten copy
